@@ -458,6 +458,9 @@ def run(ctx):
     r7 = ctx.rule("R7", "the dependencies a task waits for are the ones it was submitted with (composition with C11.R4)")
     from .shared import import_rules
     import_rules(ctx, r7, "C11", only={"R4"})
+    r9 = ctx.rule("R9", "'reaches a final state and keeps it': the pool never drops a task from its tables")
+    from .localpool import rule_tasks_never_forgotten
+    rule_tasks_never_forgotten(ctx, r9, "a finished task whose entry is gone no longer has its final state - a state query reports it unknown (and gwf runs it again), a cancel request for it fails")
     r8 = ctx.rule("R8", "'completed iff its process ran and exited 0': the exit status reaches the pool - no code of the package makes the kernel reap children behind asyncio's back (SIGCHLD ignored)")
     from .shared import rule_signal_dispositions
     rule_signal_dispositions(ctx, r8, "C13")
